@@ -348,16 +348,18 @@ def run_case(ctx, chi, rng, c, label='gen'):
             err = core.errkind(e)
             v = v2 = s1 = g = None
     if cls != 'regular':
-        # expected counterexamples: ONE combined property check with the specific tag
+        # wrapped_pooled: expected counterexample (known finding).  all_heterogeneous_multi: repaired by
+        # edde12c, must hold now.  ONE combined property check with the specific tag
         ok = err is None
         detail = {'error': err}
         if ok:
             sv = spec_value(chi, c, post, cfg, x, n_pop, n_top, with_constant=True)
             ok = core.close(v, sv) and core.close(s1, sv)
-            detail = {'chi': v, 'hand assembly': sv, 'S1 score': s1}
+            detail = {'x': x, 'chi': v, 'hand assembly': sv, 'S1 score': s1}
         ctx.spec('C13.special_dims/' + cls, ok, inp, detail)
         if cls == 'wrapped_pooled':
             return
+        cls = 'regular'      # everything below applies to several heterogeneous sub-models as well
     if err is not None:
         ctx.spec('C13.evaluable/' + cls, False, inp, {'error': err})
         return
@@ -464,11 +466,11 @@ def run(ctx):
     quick = ctx.tier == 'quick'
     for i, kinds in enumerate(CORPUS):
         rng = ctx.sub_rng(900000 + i)
-        run_case(ctx, chi, rng, gen_case(chi, rng, force=kinds), 'corpus')
+        ctx.guard(run_case, ctx, chi, rng, gen_case(chi, rng, force=kinds), 'corpus')
     n_cases = 110 if quick else 1800
     for i in range(n_cases):
         rng = ctx.sub_rng(i)
-        run_case(ctx, chi, rng, gen_case(chi, rng))
+        ctx.guard(run_case, ctx, chi, rng, gen_case(chi, rng))
 
 
 def replay(ctx, data):
